@@ -145,7 +145,8 @@ def tree(rng, B, pl, max_files=6, allow_empty=True, big=True):
             twin = copy.copy(files[0][1])
             twin.hardlink_of = files[0][0]           # ... as a second name of the same inode
             if rng.random() < 0.55:
-                twin.hardlink_of = "@" + files[0][0]  # ... or as a symbolic link to the first file
+                twin.hardlink_of = None
+                twin.symlink_of = files[0][0]         # ... or as a symbolic link to the first file
             files[1] = (files[1][0], twin)
     files = FileList(files)
     if rng.random() < 0.15:
